@@ -8,7 +8,7 @@ CONSTANTS
   NPeers = 20
   BlockStores <- StoresAll
   ClearOnFail = TRUE
-  FreshDecode = FALSE
+  FreshDecode = TRUE
   PutPanics = FALSE
   AttemptTimeouts = TRUE
   CanonDecode = FALSE
